@@ -74,7 +74,7 @@ func isCanceledCall(v ssa.Value) bool {
 	if f.Blocks != nil && f.Signature.Results().Len() == 1 && f.Signature.Results().At(0).Type().String() == "bool" {
 		for _, b := range f.Blocks {
 			for _, in := range b.Instrs {
-				if fa, ok := in.(*ssa.FieldAddr); ok && ir.FieldNameOf(fa.X.Type(), fa.Field) == canceledField && strings.HasSuffix(ir.NamedType(fa.X.Type()), ".Scheduler") {
+				if fa, ok := in.(*ssa.FieldAddr); ok && ir.FieldNameOf(fa.X.Type(), fa.Field) == canceledField && isSchedOwner(fa.X.Type()) {
 					// reads, does not write
 					writes := false
 					for _, ref := range *fa.Referrers() {
